@@ -20,6 +20,19 @@ SPECS = [
     ({"A": "[I, J, K]", "B": "[I, K, J]", "Z": "[I]"}, "Z[i] = A[i, 4*j, k] + B[i, k, j]", [{}]),
     ({"A": "[J, K]", "B": "[K, J]", "Z": "[J]"}, "Z[j] = A[j, k] + B[k, j]", [{}, {"K": ["uniform_shape(2)"]}]),
     ({"A": "[N, M, K]", "Z": "[M]"}, "Z[m] = A[n, m, 3*k]", [{}, {"N": ["uniform_shape(6)", "uniform_shape(3)"]}]),
+    # contracted ranks in a different order in a later term / used by more operands later / third operand first
+    ({"A": "[M, K, J]", "B": "[M, J, K]", "Z": "[M]"}, "Z[m] = A[m, k, j] + B[m, j, k]", [{}, {"K": ["uniform_shape(4)", "uniform_shape(2)"]}]),
+    ({"A": "[M, K, J]", "B": "[M, J, K]", "C": "[M, J, K]", "Z": "[M]"}, "Z[m] = A[m, k, j] + B[m, j, k] + C[m, j, k]", [{}]),
+    ({"A": "[M, K, J]", "B": "[J]", "Z": "[M]"}, "Z[m] = A[m, k, j] * B[j]", [{}, {"K": ["uniform_shape(4)", "uniform_shape(2)"]}]),
+    ({"A": "[M, K, J]", "B": "[J]", "Z": "[M]"}, "Z[m] = take(A[m, k, j], B[j], 0)", [{}]),
+    ({"A": "[M, I]", "B": "[K, N]", "C": "[K]", "Z": "[M, N]"}, "Z[m, n] = A[m, i] * B[k, n] * C[k]", [{}]),
+    ({"I": "[C, W]", "F": "[S]", "O": "[Q]"}, "O[q] = I[c, 2*q + s] * F[s]", [{}]),
+]
+# rank-order given for the output (differs from how the output is written); only the loop order is omitted
+RANK_ORDER_CASES = [
+    ({"A": "[K, M]", "B": "[K, N]", "Z": "[M, N]"}, "Z[m, n] = A[k, m] * B[k, n]", {"Z": "[N, M]"}),
+    ({"A": "[K, M]", "B": "[K, N]", "Z": "[M, N]"}, "Z[m, n] = A[k, m] * B[k, n]", {"Z": "[N, M]", "A": "[M, K]"}),
+    ({"A": "[J, K, M]", "Z": "[K, M]"}, "Z[k, m] = A[j, k, m]", {"Z": "[M, K]"}),
 ]
 
 
@@ -87,4 +100,25 @@ def sweep():
                               "witness": {"einsum": expr, "partitioning": part,
                                           "explicit_default_loop_order": expand(written_ranks(expr), part),
                                           "yaml_omitted": yaml_of(decl, expr, part, False)}})
+    for decl, expr, ro in RANK_ORDER_CASES:
+        out = expr.split("[", 1)[0].strip()
+        base = "einsum:\n  declaration:\n" + "".join("    %s: %s\n" % kv for kv in decl.items())
+        base += "  expressions:\n    - %s\n" % expr
+        base += "mapping:\n  rank-order:\n" + "".join("    %s: %s\n" % kv for kv in ro.items())
+        texts = []
+        for explicit in (False, True):
+            y_ = base + ("  loop-order:\n    %s: [%s]\n" % (out, ", ".join(written_ranks(expr))) if explicit else "")
+            try:
+                texts.append(str(HiFiber(Einsum.from_str(y_), Mapping.from_str(y_))))
+            except Exception as e:      # noqa
+                texts.append("ERROR %s: %s" % (type(e).__name__, e))
+        if texts[0].startswith("ERROR"):
+            continue
+        ev += 1
+        distinct.add(texts[0])
+        if texts[0] != texts[1]:
+            fails.append({"name": "bounded/omitted-vs-explicit-default",
+                          "detail": "%s with rank-order %s: omitted loop order differs from the written default %s"
+                                    % (expr, ro, written_ranks(expr)),
+                          "witness": {"einsum": expr, "rank_order": ro, "explicit_default_loop_order": written_ranks(expr)}})
     return ev, len(distinct), fails, samples
